@@ -117,6 +117,8 @@ REVERTS = {
     "revert-D13-first-line-column": ("7b944aa", ["C20"]),
     "revert-D9-helper-collision": ("c64a255", ["C10"]),
     "revert-D11-include-name": ("00d9a6b", ["C10"]),
+    "revert-alias-array-helper-collision": ("023e641", ["C10"]),
+    "revert-include-guard-collision": ("867c345", ["C10"]),
 }
 for _n, (_c, _p) in REVERTS.items():
     CATALOGUE[_n] = (_p, [("@revert", _c, "")], f"revert of fix {_c}")
